@@ -201,7 +201,12 @@ def run_subsets(ctx, numqi, st, n):
                     ctx.set_case({'op': 'measure', 'n': n, 'subset': subset, 'state': kind, 'seed': seed})
                     form = forms[tries % len(forms)]
                     with ctx.guard('measure'):
-                        bitstr, prob, q2 = S.measure_quantum_vector(psi, form, seed if tries % 3 else np.random.default_rng(seed))
+                        psi_in = psi
+                        if tries % 4 == 3:  # memory layout: a strided (non-contiguous) view holding the same amplitudes
+                            buf = np.zeros(2 * psi.size, dtype=psi.dtype)
+                            buf[::2] = psi
+                            psi_in = buf[::2]
+                        bitstr, prob, q2 = S.measure_quantum_vector(psi_in, form, seed if tries % 3 else np.random.default_rng(seed))
                         o = int(''.join(str(int(b)) for b in bitstr), 2)
                         seen.add(o)
                         ctx.case('measure', psi, subset, o, nontrivial=(ref_p.max() < 1 - 1e-9) or r < n,
